@@ -290,9 +290,29 @@ impl<const N: usize> Ex<N> {
         let mut out = OpOut::new(cls::CMP);
         out.nontrivial = true;
         out.reloc_bound = Some(0);
-        let va: Vec<u32> = self.models[x].iter().map(|e| e.1).collect();
+        let mut va: Vec<u32> = self.models[x].iter().map(|e| e.1).collect();
+        // relation 5: a NaN-like (unordered) value at the same position of both sequences, and a
+        // difference right after it: partial_cmp must be None whatever the layouts are
+        let mut nan_restore: Option<(usize, u32)> = None;
+        if st.c % 6 == 5 && !va.is_empty() {
+            let p = st.a / 16 % va.len();
+            if let Some(t) = self.bufs[x].as_mut().unwrap().get_mut(p) {
+                nan_restore = Some((p, va[p]));
+                t.set_val(crate::elem::NAN_VAL);
+                self.models[x][p].1 = crate::elem::NAN_VAL;
+                va[p] = crate::elem::NAN_VAL;
+            }
+        }
         let mut vs = va.clone();
-        match st.c % 5 {
+        if nan_restore.is_some() {
+            let p = nan_restore.unwrap().0;
+            if p + 1 < vs.len() {
+                vs[p + 1] = (vs[p + 1] + 1) % 3;
+            } else if st.b % 2 == 0 {
+                vs.push(1);
+            }
+        }
+        match if nan_restore.is_some() { 0 } else { st.c % 6 % 5 } {
             1 => {
                 if !vs.is_empty() {
                     let p = st.a / 16 % vs.len();
@@ -317,6 +337,14 @@ impl<const N: usize> Ex<N> {
             };
         }
         arms!(0 1 2 3 4 5 6 8 11);
+        if let Some((p, old)) = nan_restore {
+            if let Some(t) = self.bufs[x].as_mut().and_then(|b| b.get_mut(p)) {
+                if t.val == crate::elem::NAN_VAL {
+                    t.set_val(old);
+                    self.models[x][p].1 = old;
+                }
+            }
+        }
         out
     }
 
@@ -337,6 +365,21 @@ impl<const N: usize> Ex<N> {
         }
         let want_eq = va == &vs[..];
         let want_ord = lex_cmp(va, &vs);
+        let has_nan = va.contains(&crate::elem::NAN_VAL) || vs.contains(&crate::elem::NAN_VAL);
+        let want_partial: Option<Ordering> = {
+            let mut r: Option<Option<Ordering>> = None;
+            for (a, b) in va.iter().zip(vs.iter()) {
+                if *a == crate::elem::NAN_VAL || *b == crate::elem::NAN_VAL {
+                    r = Some(None);
+                    break;
+                }
+                if a != b {
+                    r = Some(Some(a.cmp(b)));
+                    break;
+                }
+            }
+            r.unwrap_or(Some(va.len().cmp(&vs.len())))
+        };
         {
             let (a0, _) = self.bufs[x].as_ref().unwrap().as_slices();
             let (b0, _) = t.as_slices();
@@ -367,7 +410,7 @@ impl<const N: usize> Ex<N> {
             let _ = write!(self.trace.line(), " r={}{}{}{:?}", eq1 as u8, eq2 as u8, ne as u8, pc);
             if eq1 != want_eq || eq2 != want_eq || ne == want_eq {
                 self.fail(own, format!("capacity {N} buffer {va:?} vs capacity {M} buffer {vs:?}: a==b {eq1}, b==a {eq2}, a!=b {ne}"));
-            } else if pc != Some(want_ord) || pc2 != Some(want_ord.reverse()) {
+            } else if pc != want_partial || pc2 != want_partial.map(|o| o.reverse()) {
                 self.fail(own, format!("partial_cmp of {va:?} vs {vs:?} (capacities {N}, {M}) = {pc:?} / reversed {pc2:?}"));
             } else if want_eq && M == N && ha != hb {
                 self.fail(own, format!("equal buffers {va:?} of the same capacity hash differently (layouts differ)"));
@@ -395,7 +438,7 @@ impl<const N: usize> Ex<N> {
                 }
             }
         }
-        if M == N && self.fail.is_none() && !self.window_panicked {
+        if M == N && self.fail.is_none() && !self.window_panicked && !has_nan {
             // Ord needs the same type
             let a = self.bufs[x].as_ref().unwrap();
             let tr: &CircularBuffer<M, Tracked> = &t;
